@@ -194,7 +194,7 @@ Lemma exec_trap_final c m k s f fr frs i n e s' :
 Proof.
   intros Hf Hfr Hip Hfe He. cbn [exec]. rewrite Hf, Hfr. apply N.ltb_lt in Hip. rewrite Hip, Hfe, He.
   pose proof (exec_instr_errfinal c m s fr frs (st_ip s) i n) as F. rewrite He in F. simpl in F. destruct F as [F1 F2].
-  repeat split; try assumption. simpl. rewrite F2. reflexivity.
+  repeat split; try assumption. simpl. rewrite F2. symmetry. apply rev_alt.
 Qed.
 
 (* program-level C08 witness: let a = [1,2,3]; println (at a 5); return 0 *)
